@@ -471,8 +471,8 @@ def c08_block_counts_work_once(ctx, v):
             if r == z3.sat:
                 v.sat += 1
                 ev = lambda x: m.eval(x, model_completion=True).as_long()
-                v.fail("block of %d: after generate() the block's total_work differs from the routing work its transactions carry" % n,
-                       dict(total_work_before=ev(pre_work.bv), work_of_transactions=[ev(w.bv) for w in works], total_work_after=ev(tw.bv)))
+                L.fail_structural(v, o, "block of %d: after generate() the block's total_work differs from the routing work its transactions carry" % n,
+                                  dict(total_work_before=ev(pre_work.bv), work_of_transactions=[ev(w.bv) for w in works], total_work_after=ev(tw.bv)), exprs=[tw.bv])
             elif r == z3.unsat:
                 v.unsat += 1
             else:
